@@ -54,7 +54,12 @@ func runC09(s *kernel.Sim) {
 			r.grouped = true
 			r.pct10 = map[string]int{}
 			ga := &sharedConfig.GroupQuotaAllocation{GroupBy: &sharedConfig.GroupBy{HeaderName: "X-Grp"}}
-			for _, g := range []string{"a", "b"} {
+			// group names that differ only by case are distinct groups (the allocation
+			// table is matched byte for byte), so they must not share a counter either
+			cfgPool := []string{"a", "b", "A", "Gold", "gold"}
+			perm := tp.Perm(len(cfgPool))
+			for _, gi := range perm[:2] {
+				g := cfgPool[gi]
 				p := pcts[tp.Choose(len(pcts))]
 				r.pct10[g] = p
 				ga.Groups = append(ga.Groups, sharedConfig.QuotaAllocation{GroupHeaderValue: g, AllocationPercentage: float64(p) / 10})
@@ -79,8 +84,14 @@ func runC09(s *kernel.Sim) {
 	s.Knobs["remedies"], s.Knobs["ops"], s.Knobs["burst"], s.Knobs["lock_sites"] = desc, nOps, burstP, density
 
 	cl := clock.NewRealClock()
+	// production wires the identity obfuscator (services.go); MD5 is what the unit tests use
+	var hasher obfuscation.Hasher = obfuscation.IdentityHasher{}
+	if tp.Chance(1, 4) {
+		hasher = obfuscation.MD5Hasher{}
+	}
+	s.Knobs["hasher"] = fmt.Sprintf("%T", hasher)
 	plugin, err := remedies.NewStrategyBasedThrottlingPlugin(context.Background(), cl, nil,
-		limit.NewRateLimitState(cl, logging.ContextLogger{}), obfuscation.Obfuscator{Hasher: obfuscation.MD5Hasher{}})
+		limit.NewRateLimitState(cl, logging.ContextLogger{}), obfuscation.Obfuscator{Hasher: hasher})
 	if err != nil {
 		s.HarnessErr = "cannot build throttling plugin: " + err.Error()
 		return
@@ -131,7 +142,7 @@ func runC09(s *kernel.Sim) {
 		}
 		return ceilDiv(r.allowed*int64(r.defPct10), 1000), true, false
 	}
-	groups := []string{"", "a", "b", "c", "d"}
+	groups := []string{"", "a", "b", "c", "d", "A", "Gold", "gold", "C"}
 	n := 0
 	for op := 0; op < nOps && !s.Failed(); op++ {
 		r := rems[tp.Choose(len(rems))]
